@@ -219,7 +219,25 @@ pub fn run_scenario(sc: &Scenario) -> RunOutcome {
     let mut steps = Vec::new();
     let mut fed_texts = Vec::new();
     let mut hung = false;
+    // global watchdog: no thread passed a point for a minute although take-overs are possible
+    loop {
+        if handles.iter().all(|h| h.is_finished()) {
+            break;
+        }
+        if sched.stalled_for() > std::time::Duration::from_secs(60) {
+            hung = true;
+            break;
+        }
+        std::thread::sleep(std::time::Duration::from_micros(200));
+    }
     for h in handles {
+        if hung && !h.is_finished() {
+            // cannot be joined; the process reports the hang and exits
+            results.push(Vec::new());
+            steps.push(Vec::new());
+            fed_texts.push(Vec::new());
+            continue;
+        }
         match h.join() {
             Ok((r, s, f)) => {
                 results.push(r);
